@@ -11,6 +11,9 @@ mod zipapi;
 
 use util::{Ctx, Tier};
 
+#[global_allocator]
+static GLOBAL: sio::alloc::Counting = sio::alloc::Counting;
+
 pub struct Args {
     pub tier: Tier,
     pub seed: u64,
